@@ -100,6 +100,7 @@ def gen_cases(tier, seed):
         for arr_name, order in (("(tt|dd)", [t[0], t[1], d[0], d[1]]), ("(td|td)", [t[0], d[0], t[1], d[1]])):
             cases.append({"kind": "quartet", "shells": [dict(s) for s in order], "classes": ["quartet", "ill:" + name, "arr:" + arr_name], "cost": 800})
     cases += bases.dup_variants("C11", seed, tier, [c for c in cases if c["kind"] == "perm"], 5)  # one shell listed twice as the same object
+    cases += bases.argrep_variants("C11", seed, tier, cases, 7, ok=lambda c: "shells" in c and c.get("kind") in (None, "whole", "kernel", "perm", "real"))  # constructor arguments in other in-memory representations
     return cases
 
 
